@@ -98,7 +98,7 @@ fn render_terminal(t: &str, rng: &mut Rng) -> String {
     match t {
         "ID" => IDS[rng.below(IDS.len())].to_string(),
         "INT" => INTS[rng.below(INTS.len())].to_string(),
-        "STRING" => ["\"s\"", "\"a b\"", "\"\""][rng.below(3)].to_string(),
+        "STRING" => ["\"s\"", "\"a b\"", "\"\"", "\"a\\\\\"", "\"\\\\\"", "\"q\\\"x\"", "\"\\n\\t\"", "\"C:\\\\dir\\\\\""][rng.below(8)].to_string(),
         "CODE" => "[{ c }]".to_string(),
         "VARNAME" => "$v".to_string(),
         "BANGOP" => BANGS[rng.below(BANGS.len())].to_string(),
